@@ -58,6 +58,14 @@ def run(ctx):
         ev.append(skein_event(Nb, Nb, rb(1 + Nb // 64), 0)); ev.append(skein_event(Nb, 64, b'\xff', 0, key=b'k')); ctx.mark((Nb, 'bitlen 0'))
     ev.append(skein_event(256, 256 * 257 + 8, rb(3))); ctx.mark((256, 'long output'))
     if big: ev.append(skein_event(512, 512 * 256 + 64, rb(70), key=rb(5)))
+    # output lengths that are not a multiple of 8 (ceil(No/8) bytes), just above a multiple of the state size and below 8
+    for Nb, No in ((256, 257), (512, 513), (1024, 1027), (256, 3), (512, 250), (256, 263)):
+        ev.append(skein_event(Nb, No, rb(5))); ctx.mark((Nb, No, 'odd No'))
+    # the parameter sets of the submission (a table of precomputed initial values must agree with the computed ones)
+    for Nb, No in ((256, 128), (256, 160), (256, 224), (256, 256), (512, 128), (512, 160), (512, 224), (512, 256), (512, 384), (512, 512), (1024, 384), (1024, 512), (1024, 1024)):
+        ev.append(skein_event(Nb, No, rb(3))); ctx.mark((Nb, No, 'standard set'))
+    # a tree that grows beyond level 7 (Yl = Yf = 1 on more than 2^7 leaves of one block... Skein-256: 64-byte leaves, 4200 bytes)
+    ev.append(skein_event(256, 256, rb(4200), Yl=1, Yf=1, Ym=255)); ev.append(skein_event(256, 256, rb(4200), Yl=1, Yf=1, Ym=8)); ctx.mark(('deep tree',))
     from crysp.skein import Skein
     for Nb in (256, 512):
         for m in core.zero_edge_inputs(lambda x: Skein(Nb, Nb)(x), lambda i: b'zs-%d-%d' % (ctx.seed, i), want=1, tries=700):
@@ -94,5 +102,5 @@ def run(ctx):
     clean = dict(ev=[skein_event(256, 256, b'abc')])
     def corrupt(t): t['ev'][0]['obs'][0] ^= 1; return t
     ctx.binding_selftest('trace/Trace_Skein.tla', clean, lambda t: len(t['ev']), corrupt, 'Trace_Skein: flipped output bit')
-    ctx.assumptions += ['an absent optional input is None; an empty prs/PK/kdf/nonce is treated as absent; an empty key is "no key" per Skein 1.3', 'No is a multiple of 8', 'content seeded']
+    ctx.assumptions += ['an absent optional input is None; an empty prs/PK/kdf/nonce is treated as absent; an empty key is "no key" per Skein 1.3', 'content seeded']
     return ctx.finish('Skein outputs over state sizes x output lengths x message grid x L mod 8 x key forms x optional inputs x tree shapes, bare UBI near 2^64, each recomputed by TLC from sys/Skein (validated on the official vectors incl. MAC and tree)')
